@@ -22,6 +22,8 @@ fn declared_schema(p: &Prog, part: usize, resp: RespTy) -> RootSchema {
         RespTy::EchoA => cosmwasm_schema::schema_for!(crate::types::EchoA),
         RespTy::EchoB => cosmwasm_schema::schema_for!(crate::types::EchoB),
         RespTy::EchoC => cosmwasm_schema::schema_for!(crate::types::EchoC),
+        RespTy::Bin => cosmwasm_schema::schema_for!(sylvia::cw_std::Binary),
+        RespTy::Text => cosmwasm_schema::schema_for!(String),
         RespTy::Param(i) => {
             if part == 0 {
                 schema_of_ty(&p.model.contract.generics[i])
